@@ -103,7 +103,11 @@ class Server(BaseComponent):
 
     @handler('read')
     def _on_read(self, sock, data):
-        self.__protocols[sock].add_buffer(data)
+        protocol = self.__protocols.get(sock)
+        if protocol is None:
+            # (the connection of another server on this channel)
+            return
+        protocol.add_buffer(data)
 
     @property
     def host(self):
@@ -128,6 +132,11 @@ class Server(BaseComponent):
 
     @handler('connect')
     def __connect_peer(self, sock, host, port):
+        if sock not in self.server._clients:
+            # accepted by another server that shares the channel: its peers
+            # are subject to its firewalls, not to ours
+            return
+
         self.__protocols[sock] = Protocol(
             sock=sock,
             server=self.server,
